@@ -1,5 +1,6 @@
 import Poulpy.Lemmas.CoreOpsVal
 import Poulpy.Lemmas.CoreOpsProg
+import Poulpy.Lemmas.CoreOpsNorm
 
 /-!
 # C02 — noise-free ciphertext operations commute exactly with decryption
@@ -268,6 +269,69 @@ theorem truncation_within_one_unit (b : Nat) (hb : 1 ≤ b) (p : Col) (rs t : Na
 
 example : |valCoeff 4 ([[1, 2], [3, -4], [-8, 8]].drop 1) 0| < 2 ^ (4 * (3 - 1)) :=
   truncation_within_one_unit 4 (by decide) _ 1 0 (by decide)
+
+/-! ## shifts and re-normalisation (C08 kernels), modulo the value theorem of the kernel
+
+FULL STATEMENT (not proved here): for `glwe_normalize` (same / cross radix), `glwe_normalize_assign`,
+`glwe_lsh`, `glwe_lsh_add`, `glwe_lsh_sub`, `glwe_lsh_assign` and `glwe_rsh`, the phase of the result
+is the phase of the operand multiplied by the power of two (re-expressed in the result's radix),
+exactly when no limb is dropped and within `1 + Σ‖sᵢ‖₁` units of the result's last limb otherwise.
+What is proved: the reduction of that statement to the value specification of the per-column kernel
+(`A·val(out column) = B·val(in column) + Eᵢ`, the shape of the C08 value theorems), with the exact
+error expression `E₀ + Σ sᵢ ⋆ Eᵢ₊₁`; instantiated for `glwe_normalize`.  The `lsh` family and
+`normalize_assign` have the same column-wise structure (`phase_value_modulo_norm` applies to their
+results verbatim) but are not instantiated; `glwe_rsh` violates the statement (see below). -/
+
+/-- value form of the phase for any column-wise kernel: if every result column satisfies
+`A·val(r'ᵢ) = B·val(aᵢ) + Eᵢ`, the phases satisfy the same relation with error `E₀ + Σ sᵢ ⋆ Eᵢ₊₁` -/
+theorem phase_value_modulo_norm {N : Nat} {r' a : GLWE} (hr : GWF N r') (ha : GWF N a) (hrank : a.rank = r'.rank)
+    (A B : Int) (E : Nat → Poly) (hE : ∀ i, (E i).length = N)
+    (h : ∀ i, i ≤ r'.rank →
+      polyScale A (valP r'.base2k N (col r' i)) = polyAdd (polyScale B (valP a.base2k N (col a i))) (E i))
+    (s : List Poly) :
+    polyScale A (valP r'.base2k N (phase s r'))
+      = polyAdd (polyScale B (valP a.base2k N (phase s a))) (errTo (min r'.rank s.length) s E) :=
+  phase_val_modulo_norm hr ha hrank A B E hE h s
+
+/-- `glwe_normalize`, same or different radix, all limb counts -/
+theorem normalize_phase_modulo_norm {N : Nat} {res a : GLWE} (hr : GWF N res) (ha : GWF N a) (hrank : res.rank = a.rank)
+    (C : Nat → Col) (A B : Int) (E : Nat → Poly) (hE : ∀ i, (E i).length = N)
+    (hK : ∀ i, i ≤ res.rank →
+      normalizeCol? res.base2k res.size 0 (col a i) a.base2k N = some (C i) ∧ ColWF N res.size (C i) ∧
+      polyScale A (valP res.base2k N (C i)) = polyAdd (polyScale B (valP a.base2k N (col a i))) (E i)) :
+    ∃ r', glweNormalize N res a = .ok r' ∧ Same res r' ∧ GWF N r' ∧ r'.size = res.size ∧
+      ∀ s, polyScale A (valP res.base2k N (phase s r'))
+        = polyAdd (polyScale B (valP a.base2k N (phase s a))) (errTo (min res.rank s.length) s E) :=
+  normalize_modulo_norm hr ha hrank C A B E hE hK
+
+/-- radix `2^2`, two limbs -/
+def exA2 : GLWE := { base2k := 2, k := 4, n := 2, cols := [[[1, -2], [0, 1]], [[-1, 0], [1, 1]]] }
+
+/-- cross-radix, no limb dropped (4 bits into 8 bits): the kernel hypothesis holds with `E = 0`, and the
+phase is re-expressed exactly (`val_out = 2^4 · val_in`) -/
+example : ∃ r', glweNormalize 2 exRes exA2 = .ok r' ∧
+    ∀ s, polyScale 1 (valP 4 2 (phase s r')) = polyAdd (polyScale 16 (valP 2 2 (phase s exA2))) (errTo (min 1 s.length) s (fun _ => [0, 0])) := by
+  obtain ⟨r', h, _, _, _, hp⟩ := normalize_phase_modulo_norm (N := 2) (res := exRes) (a := exA2) (by decide) (by decide) rfl
+    (fun i => if i = 0 then [[4, -7], [0, 0]] else [[-3, 1], [0, 0]]) 1 16 (fun _ => [0, 0]) (fun _ => rfl)
+    (fun i hi => by
+      have : i = 0 ∨ i = 1 := by have : i ≤ 1 := hi; omega
+      rcases this with rfl | rfl <;> decide +kernel)
+  exact ⟨r', h, hp⟩
+
+/-- same radix, two limbs dropped: `2^8 · val_out = val_in + E` with `|E| < 2^8` (one unit of the result's last limb) -/
+example : ∃ r', glweNormalize 2 { base2k := 4, k := 4, n := 2, cols := [[[0, 0]]] }
+      { base2k := 4, k := 12, n := 2, cols := [[[1, -2], [3, 1], [-8, 7]]] } = .ok r' ∧
+    ∀ s, polyScale 256 (valP 4 2 (phase s r'))
+      = polyAdd (polyScale 1 (valP 4 2 (phase s { base2k := 4, k := 12, n := 2, cols := [[[1, -2], [3, 1], [-8, 7]]] })))
+          (errTo (min 0 s.length) s (fun _ => [-40, -23])) := by
+  obtain ⟨r', h, _, _, _, hp⟩ := normalize_phase_modulo_norm (N := 2)
+    (res := { base2k := 4, k := 4, n := 2, cols := [[[0, 0]]] })
+    (a := { base2k := 4, k := 12, n := 2, cols := [[[1, -2], [3, 1], [-8, 7]]] }) (by decide) (by decide) rfl
+    (fun _ => [[1, -2]]) 256 1 (fun _ => [-40, -23]) (fun _ => rfl)
+    (fun i hi => by
+      have : i = 0 := by have : i ≤ 0 := hi; omega
+      subst this; decide +kernel)
+  exact ⟨r', h, hp⟩
 
 /-! ## straight-line programs
 
